@@ -211,28 +211,28 @@ fn eval_binary_op_standalone(
             Value::Null
         }
         BinaryOperator::Plus => match (left, right) {
-            (Value::Int(a), Value::Int(b)) => Value::Int(a + b),
+            (Value::Int(a), Value::Int(b)) => a.checked_add(*b).map(Value::Int).unwrap_or(Value::Null),
             (Value::Float(a), Value::Float(b)) => Value::Float(a + b),
             (Value::Int(a), Value::Float(b)) => Value::Float(*a as f64 + b),
             (Value::Float(a), Value::Int(b)) => Value::Float(a + *b as f64),
             _ => Value::Null,
         },
         BinaryOperator::Minus => match (left, right) {
-            (Value::Int(a), Value::Int(b)) => Value::Int(a - b),
+            (Value::Int(a), Value::Int(b)) => a.checked_sub(*b).map(Value::Int).unwrap_or(Value::Null),
             (Value::Float(a), Value::Float(b)) => Value::Float(a - b),
             (Value::Int(a), Value::Float(b)) => Value::Float(*a as f64 - b),
             (Value::Float(a), Value::Int(b)) => Value::Float(a - *b as f64),
             _ => Value::Null,
         },
         BinaryOperator::Multiply => match (left, right) {
-            (Value::Int(a), Value::Int(b)) => Value::Int(a * b),
+            (Value::Int(a), Value::Int(b)) => a.checked_mul(*b).map(Value::Int).unwrap_or(Value::Null),
             (Value::Float(a), Value::Float(b)) => Value::Float(a * b),
             (Value::Int(a), Value::Float(b)) => Value::Float(*a as f64 * b),
             (Value::Float(a), Value::Int(b)) => Value::Float(a * *b as f64),
             _ => Value::Null,
         },
         BinaryOperator::Divide => match (left, right) {
-            (Value::Int(a), Value::Int(b)) if *b != 0 => Value::Int(a / b),
+            (Value::Int(a), Value::Int(b)) if *b != 0 => a.checked_div(*b).map(Value::Int).unwrap_or(Value::Null),
             (Value::Float(a), Value::Float(b)) if *b != 0.0 => Value::Float(a / b),
             (Value::Int(a), Value::Float(b)) if *b != 0.0 => Value::Float(*a as f64 / b),
             (Value::Float(a), Value::Int(b)) if *b != 0 => Value::Float(a / *b as f64),
@@ -1699,28 +1699,28 @@ where
                 Value::Null
             }
             BinaryOperator::Plus => match (left, right) {
-                (Value::Int(a), Value::Int(b)) => Value::Int(a + b),
+                (Value::Int(a), Value::Int(b)) => a.checked_add(*b).map(Value::Int).unwrap_or(Value::Null),
                 (Value::Float(a), Value::Float(b)) => Value::Float(a + b),
                 (Value::Int(a), Value::Float(b)) => Value::Float(*a as f64 + b),
                 (Value::Float(a), Value::Int(b)) => Value::Float(a + *b as f64),
                 _ => Value::Null,
             },
             BinaryOperator::Minus => match (left, right) {
-                (Value::Int(a), Value::Int(b)) => Value::Int(a - b),
+                (Value::Int(a), Value::Int(b)) => a.checked_sub(*b).map(Value::Int).unwrap_or(Value::Null),
                 (Value::Float(a), Value::Float(b)) => Value::Float(a - b),
                 (Value::Int(a), Value::Float(b)) => Value::Float(*a as f64 - b),
                 (Value::Float(a), Value::Int(b)) => Value::Float(a - *b as f64),
                 _ => Value::Null,
             },
             BinaryOperator::Multiply => match (left, right) {
-                (Value::Int(a), Value::Int(b)) => Value::Int(a * b),
+                (Value::Int(a), Value::Int(b)) => a.checked_mul(*b).map(Value::Int).unwrap_or(Value::Null),
                 (Value::Float(a), Value::Float(b)) => Value::Float(a * b),
                 (Value::Int(a), Value::Float(b)) => Value::Float(*a as f64 * b),
                 (Value::Float(a), Value::Int(b)) => Value::Float(a * *b as f64),
                 _ => Value::Null,
             },
             BinaryOperator::Divide => match (left, right) {
-                (Value::Int(a), Value::Int(b)) if *b != 0 => Value::Int(a / b),
+                (Value::Int(a), Value::Int(b)) if *b != 0 => a.checked_div(*b).map(Value::Int).unwrap_or(Value::Null),
                 (Value::Float(a), Value::Float(b)) if *b != 0.0 => Value::Float(a / b),
                 (Value::Int(a), Value::Float(b)) if *b != 0.0 => Value::Float(*a as f64 / b),
                 (Value::Float(a), Value::Int(b)) if *b != 0 => Value::Float(a / *b as f64),
